@@ -171,7 +171,17 @@ func (c *Ctx) toolScenario(t *toolRun, class string, inputs map[string]string, c
 			continue
 		}
 		got := "ok " + hx([]byte(name)) + " " + hexList(ws)
-		if s != "" && got != s {
+		if s == "" {
+			// too large for the line protocol: the expected list is computed here (non-empty LF-separated lines)
+			var exp []string
+			for _, ln := range strings.Split(src, "\n") {
+				if ln != "" {
+					exp = append(exp, ln)
+				}
+			}
+			s = "ok " + hx([]byte(want)) + " " + hexList(exp)
+		}
+		if got != s {
 			r.violate(Violation{Kind: "impl≠spec", Class: class, Op: op, Impl: trunc(got, 400), Spec: trunc(s, 400),
 				Detail: short + ": the generated list is not the non-empty input lines under the expected variable"})
 			continue
@@ -274,6 +284,20 @@ func propC17(c *Ctx) {
 		"japanese": "あいだ\nが\nぱ", "korean": "가\n가\nᅡ", "czech": "č\nž́", "italian": "città", "portuguese": "",
 		"chinese_simplified": "\n\n\n", "chinese_traditional": "的"}
 	c.toolScenario(t, "crafted", crafted, false)
+	// very long words (scanner token limits, fixed buffers) and files whose first letters look like the
+	// magic number of some binary format to a content sniffer
+	longs := map[string]string{}
+	magic := map[string]string{}
+	sizes := []int{4095, 4096, 65535, 65536, 70000, 1 << 20}
+	prefixes := []string{"BMAT", "OTTO", "wOFFka", "wOFtwo", "RIFFabcdWAVE", "RIFFabcdAVI", "FORMabcdAIFF", "MThd", "OggS", "fLaC", "Rar", "MZ", "PK", "GIF"}
+	i := 0
+	for p := range toolTargets {
+		longs[p] = "alpha\nbeta\n" + strings.Repeat("z", sizes[i%len(sizes)]) + "\ngamma\ndelta\n"
+		magic[p] = prefixes[i%len(prefixes)] + "\n" + prefixes[(i+5)%len(prefixes)] + "x\nzoo\n"
+		i++
+	}
+	c.toolScenario(t, "very-long-word", longs, false)
+	c.toolScenario(t, "magic-number-prefix", magic, false)
 	reps := 3 * c.scale
 	if !c.quick {
 		reps = 40
